@@ -20,25 +20,34 @@ Hash(k) == IF k.nul THEN HV[1] ELSE HV[k.v + 2]
 Cols == UNION {[1..m -> Dom] : m \in 0..MAXLEN}
 Bools == {TRUE, FALSE}
 
-HashCases == {[scheme |-> "hash", n |-> n, col |-> c, splits |-> <<>>, desc |-> FALSE, nf |-> FALSE,
+HashCases == {[scheme |-> "hash", kc |-> "k1", n |-> n, col |-> c, splits |-> <<>>, desc |-> FALSE, nf |-> FALSE,
                rr_in |-> 0, rr_nin |-> 1, rr_batches |-> 0,
                expect |-> [j \in 1..Len(c) |-> HashPart(Hash(c[j]), n) + 1]] : n \in 1..MAXN, c \in Cols}
 
 SplitSeqs(d, f) == UNION {{s \in [1..m -> SDom] : SplitsSorted([j \in 1..m |-> <<s[j]>>], <<d>>, <<f>>)} : m \in 0..MAXSP}
 
-RangeFor(d, f) == {[scheme |-> "range", n |-> Len(s) + 1, col |-> c, splits |-> s, desc |-> d, nf |-> f,
+\* kc = the key column: "k1" (Int32) or "k2" (Utf8; the values 0..3 are then ranks in the string domain
+\* "" < "a" < "ab" < "b", the comparison is the same)
+RangeFor(d, f) == {[scheme |-> "range", kc |-> kc, n |-> Len(s) + 1, col |-> c, splits |-> s, desc |-> d, nf |-> f,
                     rr_in |-> 0, rr_nin |-> 1, rr_batches |-> 0,
                     expect |-> [j \in 1..Len(c) |-> RangePart(<<c[j]>>, [k \in 1..Len(s) |-> <<s[k]>>], <<d>>, <<f>>) + 1]]
-                   : c \in Cols, s \in SplitSeqs(d, f)}
+                   : c \in Cols, s \in SplitSeqs(d, f), kc \in {"k1", "k2"}}
 RangeCases == UNION {RangeFor(d, f) : d \in Bools, f \in Bools}
 
+\* split points that are NOT strictly increasing under the ordering (duplicates, reversed pairs, NULL
+\* on the wrong side) are not a partitioning: construction must be rejected
+BadFor(d, f) == {[scheme |-> "range_bad", kc |-> kc, n |-> 3, col |-> <<>>, splits |-> s, desc |-> d, nf |-> f,
+                  rr_in |-> 0, rr_nin |-> 1, rr_batches |-> 0, expect |-> <<>>]
+                 : s \in {t \in [1..2 -> SDom] : ~SplitsSorted([j \in 1..2 |-> <<t[j]>>], <<d>>, <<f>>)}, kc \in {"k1", "k2"}}
+BadCases == UNION {BadFor(d, f) : d \in Bools, f \in Bools}
+
 \* round robin: the column is fed as single-row batches; input index 0-based as the API takes it
-RRCases == {[scheme |-> "rr", n |-> n, col |-> [j \in 1..MAXLEN |-> Val(0)], splits |-> <<>>, desc |-> FALSE, nf |-> FALSE,
+RRCases == {[scheme |-> "rr", kc |-> "k1", n |-> n, col |-> [j \in 1..MAXLEN |-> Val(0)], splits |-> <<>>, desc |-> FALSE, nf |-> FALSE,
              rr_in |-> i, rr_nin |-> nin, rr_batches |-> MAXLEN,
              expect |-> [j \in 1..MAXLEN |-> RRPart(i + 1, nin, n, j - 1, FALSE) + 1]]
             : n \in 1..MAXN, nin \in 1..4, i \in 0..3}
 
-AllCases == HashCases \cup RangeCases \cup {c \in RRCases : c.rr_in < c.rr_nin}
+AllCases == HashCases \cup RangeCases \cup BadCases \cup {c \in RRCases : c.rr_in < c.rr_nin}
 
 VARIABLE case
 Init == case \in AllCases
